@@ -85,6 +85,10 @@ pub enum Ty {
     /// the crate's `Error` (or `io::Error`) as a value: `Err`
     Error,
     Never,
+    /// a type parameter of a generic function
+    Param(String),
+    /// a closure / function parameter `F: Fn(A) -> R`
+    Fun(Vec<Ty>, Box<Ty>),
 }
 
 impl Ty {
@@ -113,36 +117,74 @@ impl Ty {
 
 pub struct Unifier {
     parent: Vec<usize>,
-    bound: Vec<Option<IntTy>>,
+    bound: Vec<Option<Ty>>,
+    /// the variable stands for an integer literal (defaults to i32 when nothing fixes it)
+    lit: Vec<bool>,
     /// resolution of pass 1, consulted in pass 2
-    pub resolved: Option<Vec<IntTy>>,
+    pub resolved: Option<Vec<Ty>>,
     next: usize,
 }
 
 impl Unifier {
     pub fn new() -> Self {
-        Unifier { parent: vec![], bound: vec![], resolved: None, next: 0 }
+        Unifier { parent: vec![], bound: vec![], lit: vec![], resolved: None, next: 0 }
     }
     pub fn restart_for_pass2(&mut self) {
         let n = self.parent.len();
         let mut r = Vec::with_capacity(n);
         for i in 0..n {
-            let root = self.find(i);
-            r.push(self.bound[root].unwrap_or(IntTy::I32));
+            let t = self.resolve(&Ty::IVar(i));
+            r.push(match t {
+                Ty::IVar(root) => {
+                    if self.lit[root] || self.lit[i] {
+                        Ty::Int(IntTy::I32)
+                    } else {
+                        Ty::Never
+                    }
+                }
+                other => self.default_vars(&other),
+            });
         }
         self.resolved = Some(r);
         self.next = 0;
     }
+    /// a fresh integer-literal variable
     pub fn fresh(&mut self) -> Ty {
+        self.fresh_var(true)
+    }
+    /// a fresh variable for any type (element type of `Vec::new()` …)
+    pub fn fresh_any(&mut self) -> Ty {
+        self.fresh_var(false)
+    }
+    fn fresh_var(&mut self, lit: bool) -> Ty {
         let k = self.next;
         self.next += 1;
         if let Some(r) = &self.resolved {
             // pass 2: the same traversal allocates the same ids
-            return Ty::Int(*r.get(k).unwrap_or(&IntTy::I32));
+            return r.get(k).cloned().unwrap_or(Ty::Int(IntTy::I32));
         }
         self.parent.push(k);
         self.bound.push(None);
+        self.lit.push(lit);
         Ty::IVar(k)
+    }
+    /// replace variables that stayed open inside a resolved type
+    fn default_vars(&mut self, t: &Ty) -> Ty {
+        match t {
+            Ty::IVar(k) => {
+                let r = self.resolve(t);
+                match r {
+                    Ty::IVar(root) => if self.lit[root] || self.lit[*k] { Ty::Int(IntTy::I32) } else { Ty::Never },
+                    other => self.default_vars(&other),
+                }
+            }
+            Ty::List(a) => Ty::list(self.default_vars(a)),
+            Ty::Opt(a) => Ty::opt(self.default_vars(a)),
+            Ty::Res(a) => Ty::res(self.default_vars(a)),
+            Ty::Res2(a, b) => Ty::Res2(Box::new(self.default_vars(a)), Box::new(self.default_vars(b))),
+            Ty::Tuple(v) => Ty::Tuple(v.iter().map(|x| self.default_vars(x)).collect()),
+            _ => t.clone(),
+        }
     }
     fn find(&mut self, mut i: usize) -> usize {
         while self.parent[i] != i {
@@ -154,9 +196,12 @@ impl Unifier {
     pub fn resolve(&mut self, t: &Ty) -> Ty {
         match t {
             Ty::IVar(k) => {
+                if *k >= self.parent.len() {
+                    return t.clone();
+                }
                 let r = self.find(*k);
-                match self.bound[r] {
-                    Some(it) => Ty::Int(it),
+                match self.bound[r].clone() {
+                    Some(b) => self.resolve(&b),
                     None => Ty::IVar(r),
                 }
             }
@@ -177,12 +222,18 @@ impl Unifier {
             (Ty::IVar(x), Ty::IVar(y)) => {
                 if x != y {
                     self.parent[*x] = *y;
+                    if self.lit[*x] {
+                        self.lit[*y] = true;
+                    }
                 }
                 Ok(Ty::IVar(*y))
             }
-            (Ty::IVar(x), Ty::Int(it)) | (Ty::Int(it), Ty::IVar(x)) => {
-                self.bound[*x] = Some(*it);
-                Ok(Ty::Int(*it))
+            (Ty::IVar(x), other) | (other, Ty::IVar(x)) => {
+                if self.lit[*x] && !matches!(other, Ty::Int(_)) {
+                    return Err(format!("unsupported: integer literal used as {:?}", other));
+                }
+                self.bound[*x] = Some(other.clone());
+                Ok(other.clone())
             }
             (Ty::Int(x), Ty::Int(y)) if x == y => Ok(a),
             (Ty::List(x), Ty::List(y)) => Ok(Ty::list(self.unify(x, y)?)),
@@ -225,6 +276,8 @@ pub fn lean_ty(t: &Ty) -> String {
         Ty::Struct(n) => n.clone(),
         Ty::Error => "Err".into(),
         Ty::Never => "Unit".into(),
+        Ty::Param(n) => n.clone(),
+        Ty::Fun(a, r) => format!("({} → {})", a.iter().map(lean_ty).collect::<Vec<_>>().join(" → "), lean_ty(r)),
     }
 }
 
